@@ -41,6 +41,9 @@ func (s *Store[H]) OnDelete(fn func(context.Context, uint64) error) {
 var (
 	deleteRangeParallelThreshold uint64 = 10000
 	errDeleteTimeout                    = errors.New("delete timeout")
+	// errMissingHeader is reported by deleteSingle for a height that has no header in the store.
+	// It is distinct from datastore.ErrNotFound, which an OnDelete handler may return for its own data.
+	errMissingHeader = errors.New("header is missing")
 )
 
 // deleteSingle deletes a single header from the store,
@@ -56,6 +59,9 @@ func (s *Store[H]) deleteSingle(
 	}
 
 	hash, err := s.heightIndex.HashByHeight(ctx, height, false)
+	if errors.Is(err, datastore.ErrNotFound) {
+		return fmt.Errorf("hash by height %d: %w", height, errMissingHeader)
+	}
 	if err != nil {
 		return fmt.Errorf("hash by height %d: %w", height, err)
 	}
@@ -102,7 +108,7 @@ func (s *Store[H]) deleteSequential(
 
 	for height := from; height < to; height++ {
 		err := s.deleteSingle(ctx, height, onDelete)
-		if errors.Is(err, datastore.ErrNotFound) {
+		if errors.Is(err, errMissingHeader) {
 			missing++
 			log.Debugw("attempt to delete header that's not found", "height", height)
 		} else if err != nil {
@@ -167,7 +173,7 @@ func (s *Store[H]) deleteParallel(ctx context.Context, from, to uint64) (uint64,
 		for height := range jobCh {
 			last.height = height
 			last.err = s.deleteSingle(workerCtx, height, onDelete)
-			if errors.Is(last.err, datastore.ErrNotFound) {
+			if errors.Is(last.err, errMissingHeader) {
 				last.missing++
 				// a missing header is not a failure, don't let it be reported as the worker's result
 				last.err = nil
